@@ -77,7 +77,35 @@ pub fn test_case(case: &TrainCase) -> TestResult {
         .class(case.corpus.iter().any(|r| r.labels.iter().all(|&l| l == UNK) && !r.labels.is_empty()), "all-unknown-sentence"))
 }
 
+fn long_sentence_cases() -> Vec<TrainCase> {
+    use vcommon::oracle::RefSentence;
+    use vcommon::train::TrainCfg;
+    let mut out = vec![];
+    for (k, n) in [255usize, 256, 257, 258, 259, 511, 512, 513, 1024, 70000].into_iter().enumerate() {
+        let pool = ['あ', 'く', 'そ', 'に', 'a', '1', '火', 'ア'];
+        let chars: Vec<char> = (0..n).map(|i| pool[(i * 5 + i / 7 + k) % pool.len()]).collect();
+        let labels: Vec<u8> = (0..n - 1).map(|i| [1u8, 0, 0, 1, 2, 0, 1][(i + k) % 7]).collect();
+        let dict = vec![chars[3..6].iter().collect::<String>(), chars[n - 4..].iter().collect::<String>()];
+        out.push(TrainCase {
+            cfg: TrainCfg { charw: 3, charn: 3, typew: 2, typen: 3, dict, dictn: 2, solver: 1 },
+            corpus: vec![RefSentence { chars, labels, tags: vec![vec![]; n], n_tags: 0 }],
+            tag_dict: vec![],
+            eval: vec![],
+        });
+    }
+    out
+}
+
 pub fn run(rep: &mut Report) {
+    rep.run_enum(
+        "long-sentences",
+        "deterministic sentences of 255, 256, 257, 258, 259, 511, 512, 513, 1,024 and 70,000 \
+characters (lengths around multiples of 256 and beyond 65,535) with partial annotation and \
+dictionary words at the start region and at the very end; same oracle",
+        false,
+        long_sentence_cases().into_iter(),
+        |c: &TrainCase| test_case(c).map(|mut i| { i.nontrivial = true; i }),
+    );
     let n = rep.n(60000, 600000);
     rep.run_prop(
         "examples",
